@@ -324,6 +324,9 @@ func (x *hW) opNewBatch(set uint8, count int, r int, withTarget bool, t Entity, 
 		return
 	}
 	vAssert(x.w.IsLocked(), "batch query holds the world lock")
+	if x.rec != nil {
+		vAssert(x.rec.n == 0, "Q variants emit their events only when the query is closed or exhausted")
+	}
 	vAssert(q.Count() == count, "batch query counts the created entities")
 	got := 0
 	for q.Next() {
@@ -442,6 +445,9 @@ func (x *hW) opBatchExchange(flt Filter, f int, t Entity, add, rem uint8, api in
 		vAssert(cnt == n, "batch call returns the number of matching entities")
 		return
 	}
+	if x.rec != nil {
+		vAssert(x.rec.n == 0, "Q variants emit their events only when the query is closed or exhausted")
+	}
 	vAssert(q.Count() == n, "batch query counts the affected entities")
 	got := 0
 	for q.Next() {
@@ -514,6 +520,9 @@ func (x *hW) opBatchSetRelation(flt Filter, f int, t Entity, rel int, nt Entity,
 	if !useQ {
 		vAssert(cnt == n, "batch SetRelation returns the number of matching entities")
 		return
+	}
+	if x.rec != nil {
+		vAssert(x.rec.n == 0, "Q variants emit their events only when the query is closed or exhausted")
 	}
 	vAssert(q.Count() == nch, "SetRelationQ counts the entities whose target changed")
 	got := 0
